@@ -313,7 +313,7 @@ impl<'a> Interp<'a> {
         let nat = |name: &str, tag: &'static str, methods: &[&'static str], parent: &Rc<Class>| native_class(name, parent, tag, methods);
         self.core = Some(Core {
             nil: nat("Nil", "", &[], &object),
-            boolean: nat("Bool", "", &[], &object),
+            boolean: nat("Boolean", "", &[], &object),
             num: nat("Num", "", &[], &object),
             func: nat("Func", "", &[], &object),
             builtin: nat("BuiltIn", "", &[], &object),
